@@ -16,6 +16,31 @@ Inductive gexpr :=
 
 Inductive gkeyword := GK (runes : list N) | GKUnknown (src : string).
 
+(** A statement of [ErrorList.Add]: the nil check, setting the jail flag, the
+    early return of a full list, the append; anything else is [AUnknown]. *)
+Inductive add_stmt := ANilPanic | ASetJail | ACapReturn | AAppend | AUnknown (src : string).
+
+(** The jail flag is set on EVERY call that returns: going through the
+    statements in order, [ASetJail] is met before any statement that may
+    return or is not understood. *)
+Fixpoint sets_jail_always (l : list add_stmt) : bool :=
+  match l with
+  | [] => false
+  | ANilPanic :: r => sets_jail_always r          (* does not return: panics *)
+  | ASetJail :: _ => true
+  | _ => false
+  end.
+
+(** At most [Max] errors are kept: a cap check stands before the append. *)
+Fixpoint capped_append (l : list add_stmt) : bool :=
+  match l with
+  | [] => false
+  | ACapReturn :: r => existsb (fun s => match s with AAppend => true | _ => false end) r
+  | AAppend :: _ => false
+  | AUnknown _ :: _ => false
+  | _ :: r => capped_append r
+  end.
+
 Fixpoint gexpr_eqb (a b : gexpr) : bool :=
   match a, b with
   | GOr a1 a2, GOr b1 b2 | GAnd a1 a2, GAnd b1 b2 => gexpr_eqb a1 b1 && gexpr_eqb a2 b2
